@@ -162,6 +162,98 @@ def unit_program(r, k):
     return {'deftype': None, 'types': [], 'main': main + stmts, 'procs': procs, 'features': ['unit']}
 
 
+# operator precedence and associativity: flat expressions "a op1 b op2 c" (every ordered pair of binary operators), with a
+# leading NOT / unary minus, and seeded 4-operand chains; the IR tree is built from the language's precedence table and
+# rendered without parentheses, so the compiler's grammar has to group the same way
+PREC_OPS = ['+', '-', '*', '/', '\\', 'MOD', '=', '<>', '<', '>', '<=', '>=', 'AND', 'OR', 'XOR', 'EQV', 'IMP']
+PREC_VALUES = [(7, 3, 2, 5), (9, 4, 2, 3), (20, 6, 4, 3), (5, 2, 1, 7), (12, 5, 3, 2)]
+_PREC = []
+
+
+def _prec_tree(ops, names):
+    """Parse the flat operand/operator sequence with the table (left-associative precedence climbing)."""
+    from ..gen.ir import PREC
+    operands = [('var', n, '%') for n in names]
+    # shunting: repeatedly reduce the tightest-binding leftmost operator
+    ops = list(ops)
+    while ops:
+        best = min(range(len(ops)), key=lambda i: (PREC[ops[i]], i))
+        node = ('bin', ops[best], operands[best], operands[best + 1])
+        operands[best:best + 2] = [node]
+        del ops[best]
+    return operands[0]
+
+
+def prec_exprs():
+    if not _PREC:
+        import random as _r
+        names = ['zpa%', 'zpb%', 'zpc%', 'zpd%']
+        for o1 in PREC_OPS:
+            for o2 in PREC_OPS:
+                _PREC.append(('pair', _prec_tree([o1, o2], names[:3])))
+        from ..gen.ir import PREC
+        for o1 in PREC_OPS:
+            t = _prec_tree([o1], names[:2])
+            # NOT binds looser than arithmetic and relational operators, tighter than the logical ones
+            if PREC[o1] <= 7:
+                _PREC.append(('not', ('un', 'NOT', t)))
+            else:
+                _PREC.append(('not', ('bin', o1, ('un', 'NOT', ('var', names[0], '%')), ('var', names[1], '%'))))
+            _PREC.append(('neg', ('bin', o1, ('un', '-', ('var', names[0], '%')), ('var', names[1], '%'))))
+        rr = _r.Random(4242)
+        for _ in range(260):
+            _PREC.append(('chain', _prec_tree([rr.choice(PREC_OPS) for _i in range(3)], names)))
+    return _PREC
+
+
+def prec_program(k, per=12):
+    """IR program printing `per` flat expressions; operand values are chosen so that the reference run has no error."""
+    exprs = prec_exprs()[k * per:(k + 1) * per]
+    main = []
+    names = ['zpa%', 'zpb%', 'zpc%', 'zpd%']
+    def ref_value(e, vals):
+        probe = {'deftype': None, 'types': [], 'procs': [], 'features': [],
+                 'main': [['let', ('var', n, '%'), ('lit', '%', v), False] for n, v in zip(names, vals)] + [['print', [['e', e]]]]}
+        try:
+            h, oc, _t = interp.Interp(probe, {}).run()
+        except Exception:
+            return None
+        return None if oc[0] == 'error' else repr(h)
+
+    def regroup(e):
+        # the other way of grouping a two-operator expression (what a grammar with the wrong table would compute)
+        if e[0] == 'bin' and e[2][0] == 'bin' and e[3][0] == 'var':
+            return ('bin', e[2][1], e[2][2], ('bin', e[1], e[2][3], e[3]))
+        if e[0] == 'bin' and e[3][0] == 'bin' and e[2][0] == 'var':
+            return ('bin', e[3][1], ('bin', e[1], e[2], e[3][2]), e[3][3])
+        return None
+    for kind, e in exprs:
+        chosen = None
+        alt = regroup(e)
+        for vals in PREC_VALUES:
+            v1 = ref_value(e, vals)
+            if v1 is None:
+                continue
+            if chosen is None:
+                chosen = vals
+            if alt is not None and ref_value(alt, vals) != v1:
+                chosen = vals          # values under which the two groupings print different results
+                break
+        if chosen is None:
+            continue
+        for n, v in zip(names, chosen):
+            main.append(['let', ('var', n, '%'), ('lit', '%', v), False])
+        main.append(['print', [['e', e]]])
+        # the same expression in a typed context and as a condition
+        main.append(['let', ('var', 'zpr#', '#'), e, False])
+        main.append(['print', [['e', ('var', 'zpr#', '#')]]])
+    return {'deftype': None, 'types': [], 'main': main, 'procs': [], 'features': ['precedence']}
+
+
+def n_prec_programs(per=12):
+    return (len(prec_exprs()) + per - 1) // per
+
+
 # argument forms: which spellings of an argument alias the caller's location (a bare lvalue) and which do not
 ARG_LOCS = {
     'var': ('zx{t}', ''),
@@ -284,6 +376,8 @@ def gen_cases(tier, seed):
     na = len(argform_programs())
     for lo in range(0, na, 6):
         cs.append({'argforms': True, 'lo': lo, 'hi': min(na, lo + 6), 'seed': seed, 'k': lo})
+    for i in range(n_prec_programs()):
+        cs.append({'prec': i, 'seed': seed, 'k': i, 'nscripts': 1})
     nu = 120 if tier == 'quick' else 3000
     for i in range(nu):
         cs.append({'unit': True, 'seed': seed * 100003 + 500000 + i, 'k': i, 'nscripts': 1})
@@ -338,7 +432,11 @@ def run_case(case):
         return run_argforms(case)
     if case.get('directed'):
         return run_directed(case)
-    if case.get('unit'):
+    if case.get('prec') is not None:
+        prog = prec_program(case['prec'])
+        cfgs = [rt.CONFIGS6[case['prec'] % 6], rt.CONFIGS6[(case['prec'] + 3) % 6]]
+        st['precedence_programs'] = 1
+    elif case.get('unit'):
         import random as _random
         prog = unit_program(_random.Random(case['seed']), case['k'])
         cfgs = [rt.CONFIGS6[case['k'] % 6], rt.CONFIGS6[(case['k'] + 3) % 6]]
